@@ -132,6 +132,26 @@ def rule_r4(chk, db):
                 cs = [int(o["v"]) for o in rv["ops"] if isinstance(o, dict) and o.get("c") == "int"]
                 if (rv["op"] in ("Gt", "Ne") and cs == [0]) or (rv["op"] == "Ge" and cs == [1]):
                     pos = True
+    if not (bool(filt) and pos):
+        # `match s.parse() { Ok(x) if x > 0 => Some(..), _ => None }`: every accepting return lies behind the positivity test
+        ib = inline.inlined(db, b)
+        somes = [w for w in flow.return_writes(ib) if w["kind"] == "Some"]
+        okall = bool(somes)
+        for w in somes:
+            good = False
+            for x in guards.dominating_facts(ib, w["bi"]):
+                if x[0] != "cmp":
+                    continue
+                for b2, si, st in ib.stmts():
+                    if b2 == x[3] and st["rv"]["k"] == "bin" and st["rv"]["op"] == x[1]:
+                        cs = [int(o["v"]) for o in st["rv"]["ops"] if isinstance(o, dict) and o.get("c") == "int"]
+                        c_right = isinstance(st["rv"]["ops"][1], dict) and st["rv"]["ops"][1].get("c") == "int"
+                        if c_right and ((x[1] in ("Gt", "Ne") and cs == [0] and x[2] is True) or (x[1] == "Ge" and cs == [1] and x[2] is True) or
+                                        (x[1] in ("Le", "Eq") and cs == [0] and x[2] is False) or (x[1] == "Lt" and cs == [1] and x[2] is False)):
+                            good = True
+            okall = okall and good
+        if okall:
+            filt, pos = [1], True
     chk.verdict(full and bool(filt) and pos, "R4", "parse_expires", b.loc(), "X-Amz-Expires must be a fully parsed positive integer (full parse: %s, positive filter: %s)" % (full, pos))
 
 
